@@ -822,6 +822,25 @@ struct replay {
 
 #define MAXREPLAYOPS (MAXOPS * 8)
 
+static size_t replay_format_ops(char *buf, size_t n, const struct op *seed, int nseed, const struct op *ops, int nops, const char *vkey)
+{
+	size_t len = 0;
+	int i;
+	if (n > 0) {
+		buf[0] = 0;
+	}
+	for (i = 0; i < nseed + nops; i++) {
+		struct op op = i < nseed ? seed[i] : ops[i - nseed];
+		if (len < n) {
+			len += (size_t)snprintf(buf + len, n - len, "%s %s %u %u %c %u\n", i < nseed ? "seed" : "op", op_name(op.kind), op.k, op.v, op.alias_b ? 'B' : 'A', op.want_out);
+		}
+	}
+	if (vkey != NULL && len < n) {
+		len += (size_t)snprintf(buf + len, n - len, "expect-violation %s\n", vkey);
+	}
+	return len;
+}
+
 static size_t replay_format(char *buf, size_t n, const struct universe *u, const struct op *seed, int nseed, const struct op *ops, int nops, const char *vkey, const char *note,
                             int lenient)
 {
@@ -844,13 +863,7 @@ static size_t replay_format(char *buf, size_t n, const struct universe *u, const
 			RP("key %d num %llu home %u\n", i, (unsigned long long)u->k[i].num, u->k[i].home);
 		}
 	}
-	for (i = 0; i < nseed + nops; i++) {
-		struct op op = i < nseed ? seed[i] : ops[i - nseed];
-		RP("%s %s %u %u %c %u\n", i < nseed ? "seed" : "op", op_name(op.kind), op.k, op.v, op.alias_b ? 'B' : 'A', op.want_out);
-	}
-	if (vkey != NULL) {
-		RP("expect-violation %s\n", vkey);
-	}
+	len += replay_format_ops(buf + (len < n ? len : n), len < n ? n - len : 0, seed, nseed, ops, nops, vkey);
 #undef RP
 	return len;
 }
@@ -897,7 +910,7 @@ static int replay_parse(const char *text, struct replay *r, char *err, size_t er
 				return -1;
 			}
 			if (!strcmp(w[2], "str")) {
-				snprintf(r->k[i].name, sizeof(r->k[i].name), "%s", w[3]);
+				snprintf(r->k[i].name, sizeof(r->k[i].name), "%.27s", w[3]);
 			} else {
 				r->k[i].num = strtoull(w[3], NULL, 10);
 			}
@@ -925,7 +938,7 @@ static int replay_parse(const char *text, struct replay *r, char *err, size_t er
 		} else if (!strcmp(w[0], "expect-violation") && nw >= 2) {
 			snprintf(r->expect_key, sizeof(r->expect_key), "%s", w[1]);
 		} else {
-			snprintf(err, errn, "cannot parse line: %s", line);
+			snprintf(err, errn, "cannot parse line: %.150s", line);
 			return -1;
 		}
 	}
@@ -993,11 +1006,15 @@ static int replay_run(const struct replay *r, FILE *f, char *vkey_out, size_t vk
 	for (i = 0; i < r->nops; i++) {
 		struct outcome o;
 		char ob[128];
-		step(&c, r->ops[i], &pre, &post, &o);
 		op_format(&u, r->ops[i], ob, sizeof(ob));
 		if (f) {
-			fprintf(f, "%s %3d: %-44s expected: %-52s actual: %s%s%s%s\n", i < r->nseed ? "seed" : "step", i + 1, ob, o.expect, o.actual, (o.flags & NT_DISPLACE) ? " [displacement]" : "",
-			        (o.flags & NT_WRAP) ? " [wrap]" : "", (o.flags & NT_REFUSED) ? " [refused]" : "");
+			fprintf(f, "%s %3d: %-44s ", i < r->nseed ? "seed" : "step", i + 1, ob);
+			fflush(f); /* if the real code kills the process, the transcript shows during which operation */
+		}
+		step(&c, r->ops[i], &pre, &post, &o);
+		if (f) {
+			fprintf(f, "expected: %-52s actual: %s%s%s%s\n", o.expect, o.actual, (o.flags & NT_DISPLACE) ? " [displacement]" : "", (o.flags & NT_WRAP) ? " [wrap]" : "",
+			        (o.flags & NT_REFUSED) ? " [refused]" : "");
 		}
 		if (o.viol) {
 			char vk[200];
